@@ -3,6 +3,7 @@ package main
 import (
 	"fmt"
 	"math/big"
+	"strings"
 )
 
 type bigInt = big.Int
@@ -246,6 +247,12 @@ func axiomsFor(u *Term) []*Term {
 	}
 	if f, ok := instanceAxioms[u.Op]; ok {
 		return f(u)
+	}
+	if strings.HasPrefix(u.Op, "bvlt") && len(u.Args) == 2 {
+		a, b := u.Args[0], u.Args[1]
+		rev := App(u.Op, BoolSort, b, a)
+		// trichotomy: exactly one of a<b, b<a, a=b
+		return []*Term{Eq(u, And(Not(rev), Not(Eq(a, b))))}
 	}
 	if isBOf(u) {
 		n := u.Args[0].S.W / 8
